@@ -1,6 +1,148 @@
-/- stub: property C10 has no model driver yet -/
-namespace ActixModel.Drv.C10
+import ActixModel.Util
+import ActixModel.Model.Quoter
+import ActixModel.Model.Pattern
+/-
+Line-protocol driver for C10.  First word selects the sub-model:
 
-def run (_line : String) : String := "unimplemented"
+  q <protected-hex> <in-hex>…       Quoter::new(b"", protected).requote(in) for each input
+                                    → `none` | `some:<hex>` per input, or `panic-new`
+  m <F|P> <pats> <path-hex>…        ResourceDef::new / ::prefix; per path `is/find/capture`
+  b <F|P> <pats> <val-hex>…         resource_path_from_iter, then capture on the built path
+  k <path-hex> <F|P>:<pat-hex>…     successive capture_match_info on one Path
+    <pats> = `S <pat-hex>` (Patterns::Single) | `L<n> <pat-hex>×n` (Patterns::List)
+(hex: lower-case, `-` = empty; strings are UTF-8)
+-/
+namespace ActixModel.Drv.C10
+open ActixModel.Util ActixModel.Quoter ActixModel.Pattern
+
+def hexOrDash (bs : List UInt8) : String := if bs.isEmpty then "-" else hexOfBytes bs
+
+def runQuoter (prot : String) (inputs : List String) : String :=
+  match bytesOfHex prot with
+  | some p =>
+    match Quoter.mk? p with
+    | none => "panic-new"
+    | some q =>
+      joinWith " " (inputs.map fun w =>
+        match bytesOfHex w with
+        | some i =>
+          match q.requote i with
+          | none => "none"
+          | some out => "some:" ++ hexOrDash out
+        | none => "bad-case")
+  | none => "bad-case"
+
+/-! ### pattern cases -/
+
+def strOfHex (w : String) : Option (List Char) :=
+  match bytesOfHex w with
+  | some bs => (String.fromUTF8? (ByteArray.mk bs.toArray)).map String.toList
+  | none => none
+
+def hexOfChars (cs : List Char) : String := hexOrDash (String.ofList cs).toUTF8.toList
+
+def allSome {α : Type} : List (Option α) → Option (List α)
+  | [] => some []
+  | none :: _ => none
+  | some x :: xs => (allSome xs).map (x :: ·)
+
+/-- `S <pat>` | `L<n> <pat>…`: returns the patterns and the remaining words -/
+def takePatterns : List String → Option (Patterns × List String)
+  | "S" :: p :: rest => (strOfHex p).map fun cs => (.single cs, rest)
+  | spec :: rest =>
+    if spec.startsWith "L" then
+      match (spec.drop 1).toString.toNat? with
+      | some n =>
+        if rest.length < n then none
+        else (allSome ((rest.take n).map strOfHex)).map fun ps => (.list ps, rest.drop n)
+      | none => none
+    else none
+  | [] => none
+
+def showSeg (p : PathState) (x : String × Nat × Nat) : String :=
+  x.1 ++ "=" ++ toString x.2.1 ++ "-" ++ toString x.2.2 ++ ":" ++
+    (match sliceBytes? p.path x.2.1 x.2.2 with | some v => hexOfChars v | none => "!")
+
+/-- `Path::iter()` slices every segment; one bad span makes the whole iteration panic, and the
+harness then reports every value as unreadable (`?i=!`) -/
+def showSegs (p : PathState) : String :=
+  if p.values.all (·.2.isSome) then joinWith "," (p.segments.map (showSeg p))
+  else joinWith "," ((List.range p.segments.length).map fun i => "?" ++ toString i ++ "=!")
+
+def showOutcome : Outcome → String
+  | .noMatch => "-"
+  | .panic => "PANIC"
+  | .matched p => toString p.skip ++ "{" ++ showSegs p ++ "}"
+
+def showOptNat : Option Nat → String
+  | none => "-"
+  | some n => toString n
+
+def parseErrStr : ParseErr → String
+  | .panic _ => "panic"
+  | .unsupported _ => "unsupported"
+
+def withDef (prefixFlag : String) (ws : List String) (f : ResourceDef → List String → String) : String :=
+  match takePatterns ws with
+  | none => "bad-case"
+  | some (pats, rest) =>
+    match parsePattern (prefixFlag == "P") pats with
+    | .error e => parseErrStr e
+    | .ok rd => f rd rest
+
+/-- `m <F|P> <patterns> <path>…` : is_match / find_match / capture_match_info per path -/
+def runMatch (flag : String) (ws : List String) : String :=
+  withDef flag ws fun rd paths =>
+    joinWith " " (paths.map fun w =>
+      match strOfHex w with
+      | none => "bad-case"
+      | some path =>
+        (if rd.isMatch path then "1" else "0") ++ "/" ++ showOptNat (rd.findMatch path) ++ "/" ++
+          showOutcome (rd.captureMatchInfo { path := path }))
+
+/-- `b <F|P> <patterns> <val>…` : resource_path_from_iter; then matching the built path -/
+def runBuild (flag : String) (ws : List String) : String :=
+  withDef flag ws fun rd vals =>
+    match allSome (vals.map strOfHex) with
+    | none => "bad-case"
+    | some vs =>
+      let (out, ok) := rd.build vs
+      (if ok then "1" else "0") ++ ":" ++ hexOfChars out ++ " " ++
+        showOutcome (rd.captureMatchInfo { path := out })
+
+/-- `k <path> <F|P>:<pat>…` : successive capture_match_info calls on one `Path` (skip chaining) -/
+def runChain (ws : List String) : String :=
+  match ws with
+  | [] => "bad-case"
+  | pw :: steps =>
+    match strOfHex pw with
+    | none => "bad-case"
+    | some path =>
+      let rec go (st : PathState) (steps : List String) (acc : List String) : List String :=
+        match steps with
+        | [] => acc.reverse
+        | s :: rest =>
+          match s.splitOn ":" with
+          | [flag, pat] =>
+            match strOfHex pat with
+            | none => (("bad-case") :: acc).reverse
+            | some cs =>
+              match parsePattern (flag == "P") (.single cs) with
+              | .error e => ((parseErrStr e) :: acc).reverse
+              | .ok rd =>
+                match rd.captureMatchInfo st with
+                | .matched st' => go st' rest (showOutcome (.matched st') :: acc)
+                | .noMatch => go st rest ("-" :: acc)
+                | .panic => ("PANIC" :: acc).reverse
+          | _ => ("bad-case" :: acc).reverse
+      joinWith " " (go { path := path } steps [])
+
+def run (line : String) : String :=
+  match words line with
+  | "q" :: prot :: inputs => runQuoter prot inputs
+  | "m" :: flag :: rest => runMatch flag rest
+  | "b" :: flag :: rest => runBuild flag rest
+  | "k" :: rest => runChain rest
+  | _ => "bad-case"
 
 end ActixModel.Drv.C10
